@@ -344,6 +344,12 @@ def run(ctx):
     for _ in range(n):
         if not ctx.alive():
             break
+        if rng.random() < 0.02:
+            from ..gen_stepper import failed_call
+            from plotink import plot_utils as _pu
+            failed_call(rng, _pu.subdivideCubicPath, 2)
+            mon.calls = 0
+            ctx.tag("history: after a failed call (malformed arguments)")
         classes, nodes, flat = gen_path(rng)
         ln = len(nodes)
         classes.append("nodes=%s" % (str(ln) if ln <= 2 else "3..12"))
@@ -429,6 +435,7 @@ def run(ctx):
     ctx.need("deep subdivision (> 16 successive halvings)", 1)
     ctx.need("monitor:deep subdivision evaluated (flatness, order and end nodes only)", 1)
     ctx.need("monitor:subdivideCubicPath evaluated", 1_000)
+    ctx.need("history: after a failed call (malformed arguments)", 10)
     ctx.need("monitor:pieces matched against the dyadic tree", 30_000)
     ctx.need("monitor:pieces checked for flatness", 30_000)
     contracts.uninstall_all()
